@@ -196,6 +196,16 @@ pub fn run(case: &Value, _ctx: &Ctx) -> Outcome {
         }
         "table" => {
             let t = &h[0];
+            // The array under test is obtained in three ways - built, cloned, and written over an array of ANOTHER shape
+            // with clone_from - and answers every probe alike (ArrayApi.tla: the table is a function of the shape alone).
+            let other: Vec<usize> = { let mut o: Vec<usize> = shape.iter().rev().copied().collect(); if let Some(l) = o.last_mut() { *l += 1; } o.push(2); o };
+            let constructions: Vec<(&str, Array<f64>)> = vec![
+                ("clone", array.clone()),
+                ("clone_from", { let mut a = make(&other); a.clone_from(&array); a }),
+                ("new", make(&shape)),
+            ];
+            for (via, array) in constructions.iter().map(|(v, a)| (*v, a)) {
+            let tagv = if via == "new" { String::new() } else { format!("/{via}") };
             for e in t["get"].as_array().unwrap() {
                 let idx = usizes(&e["idx"]);
                 let got = match guarded(|| array.get(&idx).copied()) {
@@ -224,7 +234,7 @@ pub fn run(case: &Value, _ctx: &Ctx) -> Outcome {
                     got.matches(&e["r"]),
                     || {
                         format!(
-                            "array/get_axis/{}",
+                            "array/get_axis/{}{tagv}",
                             if a >= shape.len() { "axis-out-of-range" } else { "in-range-axis" }
                         )
                     },
@@ -275,6 +285,7 @@ pub fn run(case: &Value, _ctx: &Ctx) -> Outcome {
                         }
                     }
                 }
+            }
             }
         }
         other => out.fail("array/unknown-kind", json!(other)),
